@@ -87,6 +87,29 @@ fn block_view_hash_map(v: &BlockView) -> Map<String, Value> {
     m
 }
 
+/// Bytes of a molecule table with `field` appended as one more field (None: not a table).
+fn table_with_one_more_field(table: &[u8], field: &[u8]) -> Option<Vec<u8>> {
+    if table.len() < 8 {
+        return None;
+    }
+    let rd = |i: usize| u32::from_le_bytes(table[i..i + 4].try_into().unwrap()) as usize;
+    let total = rd(0);
+    let first = rd(4);
+    if total != table.len() || first < 8 || first % 4 != 0 || first > total {
+        return None;
+    }
+    let n = first / 4 - 1;
+    let mut out = Vec::with_capacity(total + 4 + field.len());
+    out.extend(((total + 4 + field.len()) as u32).to_le_bytes());
+    for i in 0..n {
+        out.extend(((rd(4 + 4 * i) + 4) as u32).to_le_bytes());
+    }
+    out.extend(((total + 4) as u32).to_le_bytes());
+    out.extend(&table[first..]);
+    out.extend(field);
+    Some(out)
+}
+
 /// Item 4: print the hashes of a strict-valid packed value (by case id).
 pub fn packed_hashes(ty: &str, id: u64, bytes: &[u8], recs: &mut Records) -> Option<Map<String, Value>> {
     let b = || Bytes::copy_from_slice(bytes);
@@ -135,6 +158,23 @@ pub fn packed_hashes(ty: &str, id: u64, bytes: &[u8], recs: &mut Records) -> Opt
         }
         "Block" | "BlockV1" => {
             m = block_hash_map(&packed::Block::new_unchecked(b()));
+            // a block of a later schema: the extension followed by one more (unknown) field. The
+            // compatible reader accepts it; the extension stays the FIRST extra field and the extra
+            // hash has to commit to it (record judged by the oracle from the bytes)
+            if ty == "BlockV1" {
+                let trailing = {
+                    let mut t = (7u32 + (id % 23) as u32).to_le_bytes().to_vec();
+                    let n = 7 + (id % 23) as usize;
+                    t.extend((0..n).map(|i| (i as u8).wrapping_mul(31).wrapping_add(id as u8)));
+                    t
+                };
+                if let Some(two) = table_with_one_more_field(bytes, &trailing) {
+                    if packed::BlockReader::from_compatible_slice(&two).is_ok() {
+                        let hm = block_hash_map(&packed::Block::new_unchecked(Bytes::from(two.clone())));
+                        recs.by_hex("Block", &two, "BlockV1.with_one_more_trailing_field(compatible)", hm);
+                    }
+                }
+            }
         }
         "CompactBlock" | "CompactBlockV1" => {
             m.insert("header_hash".into(), hx(&packed::CompactBlock::new_unchecked(b()).calc_header_hash()));
